@@ -260,6 +260,12 @@ def unjudged(*answers):
         if x is None: return True
         if x == "TIMEOUT" or x.startswith("DIED") or x.endswith("END timeout") or x.endswith("END missing") or "END died" in x:
             return True
+    # `END hang` (the real code did not finish the case even on its own) is a judged answer only against a definition that
+    # finishes the run: when the other side was itself cut off (`END cut`: values exploded, step cap), both hit a limit
+    if any(x.endswith("END hang") for x in answers):
+        if any(x.endswith("END cut") for x in answers): return True
+        # ... or the run is one with very long numbers (every step prints them: legitimately slow, not stuck)
+        if any(len(r) > 3000 for x in answers for r in x.split("|")): return True
     return False
 
 
